@@ -141,7 +141,7 @@ def finish(ctx, mod, wall):
         if k["property"] == ctx.prop:
             open_keys[(k["rule"], k["instance"])] = k
     total = len(ctx.obligations)
-    bad = [o for o in ctx.obligations if not o.ok]
+    bad = [o for o in ctx.obligations if not o.ok and o.kind != "info"]   # kind info: recorded in the evidence, never a verdict (type-level witnesses)
     violations = []
     known_hits = []
     seen = set()
@@ -201,6 +201,7 @@ def finish(ctx, mod, wall):
             "bodies_analysed": ctx.stats["bodies"],
             "not_decided": getattr(mod, "NOT_DECIDED", "").strip(),
             "known_findings_matched": [k["instance"] for _, k in known_hits],
+            "informational": [o.to_json() for o in ctx.obligations if o.kind == "info"][:40],
         },
         "assumptions": getattr(mod, "ASSUMPTIONS", [
             "nightly rustc builds the same program from the same sources and cfgs as the stable toolchain",
